@@ -1,2 +1,286 @@
-use crate::Scenario;
-pub fn scenarios() -> Vec<Scenario> { vec![] }
+//! C13: persist-and-resume.  A participant may store its local secret state at any round boundary
+//! (binary or JSON), restart, and continue from the decoded copy: every later step accepts the
+//! restored state and produces exactly the outputs it would have produced from memory.
+
+use std::collections::BTreeMap;
+
+use frost_core as fc;
+use frost_core::keys::dkg;
+use frost_core::keys::refresh;
+use frost_core::keys::{KeyPackage, PublicKeyPackage};
+use frost_core::serde::de::DeserializeOwned;
+use frost_core::serde::Serialize;
+use serde_json::json;
+
+use crate::common::*;
+use crate::rng::TestRng;
+use crate::{scn, Scenario};
+
+pub fn scenarios() -> Vec<Scenario> {
+    vec![
+        scn!(scenario_dkg_resume, 3),
+        scn!(scenario_signing_resume, 3),
+        scn!(scenario_refresh_dkg_resume, 3),
+        scn!(scenario_large_state, 1),
+    ]
+}
+
+/// How the state is stored and read back.
+#[derive(Clone, Copy, Debug)]
+enum Storage {
+    /// the type's own serialize()/deserialize() (postcard)
+    Binary,
+    /// serde_json text read back with from_str (can lend string data from the input)
+    JsonStr,
+    /// ... with from_slice
+    JsonSlice,
+    /// ... with from_reader (a file after a restart; cannot lend data)
+    JsonReader,
+    /// ... through a serde_json::Value (cannot lend data)
+    JsonValue,
+}
+
+fn pick_storage(rng: &mut TestRng, notes: &mut Notes) -> Storage {
+    let st = [Storage::Binary, Storage::Binary, Storage::JsonStr, Storage::JsonSlice, Storage::JsonReader, Storage::JsonValue][rng.below(6)];
+    notes.insert("storage".into(), json!(format!("{st:?}")));
+    st
+}
+
+/// store + load
+fn persist<T, C: Suite>(
+    v: &T,
+    st: Storage,
+    name: &str,
+    ser: impl Fn(&T) -> Result<Vec<u8>, FErr<C>>,
+    de: impl Fn(&[u8]) -> Result<T, FErr<C>>,
+) -> Result<T, Stop>
+where
+    T: Serialize + DeserializeOwned,
+{
+    match st {
+        Storage::Binary => {
+            let b = must(ser(v), &format!("{name}::serialize"))?;
+            must(de(&b), &format!("{name}::deserialize of its own serialization ({} bytes)", b.len()))
+        }
+        Storage::JsonStr => {
+            let text = must(serde_json::to_string(v), &format!("{name}: store as JSON"))?;
+            must(serde_json::from_str::<T>(&text), &format!("{name}: serde_json::from_str of its own JSON"))
+        }
+        Storage::JsonSlice => {
+            let text = must(serde_json::to_vec_pretty(v), &format!("{name}: store as JSON"))?;
+            must(serde_json::from_slice::<T>(&text), &format!("{name}: serde_json::from_slice of its own JSON"))
+        }
+        Storage::JsonReader => {
+            let text = must(serde_json::to_vec(v), &format!("{name}: store as JSON"))?;
+            must(
+                serde_json::from_reader::<_, T>(std::io::Cursor::new(text)),
+                &format!("{name}: serde_json::from_reader of its own JSON"),
+            )
+        }
+        Storage::JsonValue => {
+            let val = must(serde_json::to_value(v), &format!("{name}: store as serde_json::Value"))?;
+            must(serde_json::from_value::<T>(val), &format!("{name}: serde_json::from_value of its own JSON value"))
+        }
+    }
+}
+
+fn same<T: PartialEq + std::fmt::Debug>(a: &T, b: &T, what: &str) -> Verdict {
+    check(a == b, what, short_dbg(a), short_dbg(b))
+}
+
+fn same_bytes<C: Suite>(a: Result<Vec<u8>, FErr<C>>, b: Result<Vec<u8>, FErr<C>>, what: &str) -> Verdict {
+    match (a, b) {
+        (Ok(x), Ok(y)) => check(x == y, what, hex(&x), hex(&y)),
+        _ => skip("cannot serialize outputs"),
+    }
+}
+
+pub fn scenario_dkg_resume<C: Suite>(rng: &mut TestRng, p: &Params, notes: &mut Notes) -> Verdict {
+    let ids = make_ids::<C>(&p.ids)?;
+    let json_form = pick_storage(rng, notes);
+    let run = dkg_rounds::<C>(rng, &ids, p.n, p.t, false)?;
+    let fin = dkg_finish::<C>(&run, false)?;
+    let me = match ids.get(rng.below(ids.len())) {
+        Some(i) => *i,
+        None => return skip("internal"),
+    };
+    notes.insert("participant_hex".into(), json!(id_hex::<C>(&me)));
+    let (s1, s2_mem, out_mem, (kp_mem, pkp_mem)) = match (run.r1_secret.get(&me), run.r2_secret.get(&me), run.r2_out.get(&me), fin.get(&me)) {
+        (Some(a), Some(b), Some(c), Some(d)) => (a, b, c, d),
+        _ => return skip("internal"),
+    };
+    // boundary 1: after part1
+    let s1_restored = persist::<_, C>(s1, json_form, "dkg::round1::SecretPackage", |x| x.serialize(), |b| dkg::round1::SecretPackage::<C>::deserialize(b))?;
+    same(&s1_restored, s1, "restored round-one secret package equals the stored one")?;
+    // the received public packages may have been stored as well
+    let mut r1 = BTreeMap::new();
+    for (k, v) in run.r1_for(&me) {
+        r1.insert(k, persist::<_, C>(&v, json_form, "dkg::round1::Package", |x| x.serialize(), |b| dkg::round1::Package::<C>::deserialize(b))?);
+    }
+    let (s2, out) = must(dkg::part2::<C>(s1_restored, &r1), "part2 from the restored round-one secret package")?;
+    same(&s2, s2_mem, "part2 from restored state returns the same round-two secret package")?;
+    same(&out, out_mem, "part2 from restored state returns the same round-two packages")?;
+    for (to, pk) in &out {
+        same_bytes::<C>(pk.serialize(), out_mem.get(to).map(|x| x.serialize()).unwrap_or(Err(fc::Error::SerializationError)), "round-two package bytes are identical")?;
+    }
+    // boundary 2: after part2
+    let s2_restored = persist::<_, C>(&s2, json_form, "dkg::round2::SecretPackage", |x| x.serialize(), |b| dkg::round2::SecretPackage::<C>::deserialize(b))?;
+    same(&s2_restored, s2_mem, "restored round-two secret package equals the stored one")?;
+    let mut r2 = BTreeMap::new();
+    for (k, v) in run.r2_for(&me) {
+        r2.insert(k, persist::<_, C>(&v, json_form, "dkg::round2::Package", |x| x.serialize(), |b| dkg::round2::Package::<C>::deserialize(b))?);
+    }
+    let (kp, pkp) = must(dkg::part3::<C>(&s2_restored, &r1, &r2), "part3 from the restored round-two secret package")?;
+    same(&kp, kp_mem, "part3 from restored state returns the same key package")?;
+    same(&pkp, pkp_mem, "part3 from restored state returns the same public key package")?;
+    same_bytes::<C>(kp.serialize(), kp_mem.serialize(), "key package bytes are identical")?;
+    same_bytes::<C>(pkp.serialize(), pkp_mem.serialize(), "public key package bytes are identical")
+}
+
+pub fn scenario_signing_resume<C: Suite>(rng: &mut TestRng, p: &Params, notes: &mut Notes) -> Verdict {
+    let json_form = pick_storage(rng, notes);
+    let (keys, signers, sess) = setup_session::<C>(rng, p)?;
+    let sig_mem = need(fc::aggregate::<C>(&sess.package, &sess.shares, &keys.pubkeys), "aggregate")?;
+    // boundary: after obtaining the key package, and after committing to nonces
+    for id in &signers {
+        let (kp, nonces, share_mem) = match (keys.key_packages.get(id), sess.nonces.get(id), sess.shares.get(id)) {
+            (Some(a), Some(b), Some(c)) => (a, b, c),
+            _ => return skip("internal"),
+        };
+        let kp2 = persist::<_, C>(kp, json_form, "KeyPackage", |x| x.serialize(), |b| KeyPackage::<C>::deserialize(b))?;
+        let n2 = persist::<_, C>(nonces, json_form, "SigningNonces", |x| x.serialize(), |b| fc::round1::SigningNonces::<C>::deserialize(b))?;
+        same(&kp2, kp, "restored key package equals the stored one")?;
+        same(&n2, nonces, "restored signing nonces equal the stored ones")?;
+        let pkg2 = persist::<_, C>(&sess.package, json_form, "SigningPackage", |x| x.serialize(), |b| fc::SigningPackage::<C>::deserialize(b))?;
+        let share = must(fc::round2::sign::<C>(&pkg2, &n2, &kp2), "round2::sign from restored nonces and key package")?;
+        check(
+            share.serialize() == share_mem.serialize(),
+            "round2::sign from restored state returns the same signature share",
+            hex(&share_mem.serialize()),
+            hex(&share.serialize()),
+        )?;
+    }
+    // the coordinator restores its state as well
+    let pkp2 = persist::<_, C>(&keys.pubkeys, json_form, "PublicKeyPackage", |x| x.serialize(), |b| PublicKeyPackage::<C>::deserialize(b))?;
+    same(&pkp2, &keys.pubkeys, "restored public key package equals the stored one")?;
+    let mut shares2 = BTreeMap::new();
+    for (k, v) in &sess.shares {
+        shares2.insert(*k, must(fc::round2::SignatureShare::<C>::deserialize(&v.serialize()), "SignatureShare::deserialize")?);
+    }
+    let mut commitments2 = BTreeMap::new();
+    for (k, v) in &sess.commitments {
+        commitments2.insert(*k, persist::<_, C>(v, json_form, "SigningCommitments", |x| x.serialize(), |b| fc::round1::SigningCommitments::<C>::deserialize(b))?);
+    }
+    let pkg2 = fc::SigningPackage::<C>::new(commitments2, &p.message);
+    let sig = must(fc::aggregate::<C>(&pkg2, &shares2, &pkp2), "aggregate from restored coordinator state")?;
+    same_bytes::<C>(sig.serialize(), sig_mem.serialize(), "aggregate from restored state returns the same signature bytes")
+}
+
+pub fn scenario_refresh_dkg_resume<C: Suite>(rng: &mut TestRng, p: &Params, notes: &mut Notes) -> Verdict {
+    let json_form = pick_storage(rng, notes);
+    let keys = keygen::<C>(rng, p, false)?;
+    // the refresh may shrink the group, down to exactly the threshold (t-of-t afterwards)
+    let size = match rng.below(3) {
+        0 => p.t as usize,
+        1 => keys.ids.len(),
+        _ => rng.range(p.t as usize, keys.ids.len()),
+    };
+    let sub = rng.subset(keys.ids.len(), size);
+    let ids: Vec<Id<C>> = sub.iter().filter_map(|i| keys.ids.get(*i)).copied().collect();
+    notes.insert("refreshing_participants".into(), json!(ids.len()));
+    let n = ids.len() as u16;
+    // in-memory run
+    let mut s1 = BTreeMap::new();
+    let mut p1 = BTreeMap::new();
+    for id in &ids {
+        let (s, pk) = need(refresh::refresh_dkg_part1::<C, _>(*id, n, p.t, &mut *rng), "refresh_dkg_part1")?;
+        s1.insert(*id, s);
+        p1.insert(*id, pk);
+    }
+    let mut s2 = BTreeMap::new();
+    let mut out2: BTreeMap<Id<C>, BTreeMap<Id<C>, dkg::round2::Package<C>>> = BTreeMap::new();
+    for id in &ids {
+        let others: BTreeMap<_, _> = p1.iter().filter(|(k, _)| *k != id).map(|(k, v)| (*k, v.clone())).collect();
+        let sp = match s1.get(id) {
+            Some(s) => s.clone(),
+            None => return skip("internal"),
+        };
+        let (s, o) = need(refresh::refresh_dkg_part2::<C>(sp, &others), "refresh_dkg_part2")?;
+        s2.insert(*id, s);
+        out2.insert(*id, o);
+    }
+    let me = match ids.get(rng.below(ids.len())) {
+        Some(i) => *i,
+        None => return skip("internal"),
+    };
+    notes.insert("participant_hex".into(), json!(id_hex::<C>(&me)));
+    let r1: BTreeMap<_, _> = p1.iter().filter(|(k, _)| **k != me).map(|(k, v)| (*k, v.clone())).collect();
+    let mut r2 = BTreeMap::new();
+    for (sender, o) in &out2 {
+        if let Some(pk) = o.get(&me) {
+            r2.insert(*sender, pk.clone());
+        }
+    }
+    let (s1_me, s2_me, out_me, old_kp) = match (s1.get(&me), s2.get(&me), out2.get(&me), keys.key_packages.get(&me)) {
+        (Some(a), Some(b), Some(c), Some(d)) => (a, b, c, d),
+        _ => return skip("internal"),
+    };
+    let (kp_mem, pkp_mem) = need(
+        refresh::refresh_dkg_shares::<C>(s2_me, &r1, &r2, keys.pubkeys.clone(), old_kp.clone()),
+        "refresh_dkg_shares",
+    )?;
+    // resume after part one
+    let s1_restored = persist::<_, C>(s1_me, json_form, "refresh round-one SecretPackage", |x| x.serialize(), |b| dkg::round1::SecretPackage::<C>::deserialize(b))?;
+    same(&s1_restored, s1_me, "restored refresh round-one secret package equals the stored one")?;
+    let mut r1_restored = BTreeMap::new();
+    for (k, v) in &r1 {
+        r1_restored.insert(*k, persist::<_, C>(v, json_form, "refresh round-one Package", |x| x.serialize(), |b| dkg::round1::Package::<C>::deserialize(b))?);
+    }
+    let (s2_again, out_again) = must(refresh::refresh_dkg_part2::<C>(s1_restored, &r1_restored), "refresh_dkg_part2 from restored state")?;
+    same(&s2_again, s2_me, "refresh_dkg_part2 from restored state returns the same secret package")?;
+    same(&out_again, out_me, "refresh_dkg_part2 from restored state returns the same packages")?;
+    // resume after part two (the old key material comes from storage as well)
+    let s2_restored = persist::<_, C>(s2_me, json_form, "refresh round-two SecretPackage", |x| x.serialize(), |b| dkg::round2::SecretPackage::<C>::deserialize(b))?;
+    let old_kp_restored = persist::<_, C>(old_kp, json_form, "KeyPackage", |x| x.serialize(), |b| KeyPackage::<C>::deserialize(b))?;
+    let old_pkp_restored = persist::<_, C>(&keys.pubkeys, json_form, "PublicKeyPackage", |x| x.serialize(), |b| PublicKeyPackage::<C>::deserialize(b))?;
+    let (kp, pkp) = must(
+        refresh::refresh_dkg_shares::<C>(&s2_restored, &r1_restored, &r2, old_pkp_restored, old_kp_restored),
+        "refresh_dkg_shares from restored state",
+    )?;
+    same(&kp, &kp_mem, "refresh_dkg_shares from restored state returns the same key package")?;
+    same(&pkp, &pkp_mem, "refresh_dkg_shares from restored state returns the same public key package")?;
+    same_bytes::<C>(kp.serialize(), kp_mem.serialize(), "refreshed key package bytes are identical")?;
+    same_bytes::<C>(pkp.serialize(), pkp_mem.serialize(), "refreshed public key package bytes are identical")
+}
+
+/// State of very large groups / thresholds survives storage: the round-one secret package of a
+/// t = n = 1100 key generation and of a distributed refresh (about 70 kB for the 32-byte suites), and
+/// the public key package of a 1100-participant group.  Only part one and store/restore are run.
+pub fn scenario_large_state<C: Suite>(rng: &mut TestRng, _p: &Params, notes: &mut Notes) -> Verdict {
+    let st = pick_storage(rng, notes);
+    let n: u16 = [1100u16, 1024, 1500][rng.below(3)];
+    notes.insert("max_signers".into(), json!(n));
+    notes.insert("min_signers".into(), json!(n));
+    let id = need(Id::<C>::try_from(rng.range(1, n as usize) as u16), "id")?;
+    let (s1, pk1) = need(dkg::part1::<C, _>(id, n, n, &mut *rng), "dkg::part1 with t = n")?;
+    let back = persist::<_, C>(&s1, st, "dkg::round1::SecretPackage (large threshold)", |x| x.serialize(), |b| dkg::round1::SecretPackage::<C>::deserialize(b))?;
+    same(&back, &s1, "restored large round-one secret package equals the stored one")?;
+    let back = persist::<_, C>(&pk1, st, "dkg::round1::Package (large threshold)", |x| x.serialize(), |b| dkg::round1::Package::<C>::deserialize(b))?;
+    same(&back, &pk1, "restored large round-one package equals the stored one")?;
+    let (r1, _) = need(refresh::refresh_dkg_part1::<C, _>(id, n, n, &mut *rng), "refresh_dkg_part1 with t = n")?;
+    let back = persist::<_, C>(&r1, st, "refresh round-one SecretPackage (large threshold)", |x| x.serialize(), |b| dkg::round1::SecretPackage::<C>::deserialize(b))?;
+    same(&back, &r1, "restored large refresh secret package equals the stored one")?;
+    // a large group's public key package (dealer, t = 2 keeps it cheap)
+    let (shares, pkp) = need(
+        frost_core::keys::generate_with_dealer::<C, _>(n, 2, frost_core::keys::IdentifierList::Default, rng),
+        "generate_with_dealer for a large group",
+    )?;
+    let back = persist::<_, C>(&pkp, st, "PublicKeyPackage (large group)", |x| x.serialize(), |b| PublicKeyPackage::<C>::deserialize(b))?;
+    same(&back, &pkp, "restored large public key package equals the stored one")?;
+    if let Some(sh) = shares.values().next() {
+        let kp = need(KeyPackage::<C>::try_from(sh.clone()), "KeyPackage::try_from")?;
+        let back = persist::<_, C>(&kp, st, "KeyPackage", |x| x.serialize(), |b| KeyPackage::<C>::deserialize(b))?;
+        same(&back, &kp, "restored key package equals the stored one")?;
+    }
+    Ok(())
+}
